@@ -46,6 +46,7 @@ def case_strategy():
     def _case(draw):
         two = draw(st.integers(0, 2)) == 0
         kwmode = not two and draw(st.integers(0, 3)) == 0  # the type travels through a keyword-only parameter
+        swap = two and draw(st.integers(0, 2)) == 0
         nm = draw(st.integers(1, 6))
         ann = st.one_of(
             inner_strategy().map(lambda i: ["type", i]), inner_strategy().map(lambda i: ["type", i]),
@@ -59,6 +60,11 @@ def case_strategy():
             if kwmode:
                 methods.append({"id": i, "pos": [{"name": "a0", "ann": ["obj"]}],
                                 "kw": [{"name": "t", "ann": pos[0]["ann"]}], "prio": 0})
+            elif swap:
+                # the type travels through the SECOND, uniformly named parameter; the first one has a different name
+                # in every method (hence is strictly positional)
+                methods.append({"id": i, "kw": [], "prio": 0, "order": [1, 0],
+                                "pos": [{"name": f"x{i}", "ann": pos[1]["ann"]}, {"name": "t", "ann": pos[0]["ann"]}]})
             else:
                 methods.append({"id": i, "pos": pos, "kw": [], "prio": 0})
         passed = st.one_of(
@@ -74,7 +80,7 @@ def case_strategy():
         for _ in range(draw(st.integers(2, 8))):
             if draw(st.booleans()):
                 m = draw(st.sampled_from(methods))
-                a = (m["kw"][0] if kwmode else m["pos"][0])["ann"]
+                a = typed_params(m)[0]["ann"]
                 if a[0] == "type" and len(a) == 2:
                     v = to_passed(a[1])
                 else:
@@ -85,7 +91,7 @@ def case_strategy():
             if two:
                 args.append(draw(st.sampled_from([["inst", "K0"], ["inst", "K1"], ["int", 1], ["str", "s"]])))
             calls.append(args)
-        return {"methods": methods, "calls": calls, "kwmode": kwmode}
+        return {"methods": methods, "calls": calls, "kwmode": kwmode, "swap": swap}
 
     return _case()
 
@@ -179,7 +185,10 @@ def order1(a, b, env):
                     return S.NONE
                 return S.UNSPEC
         if x[0] == "gen" and y[0] == "gen" and x[1] != y[1]:
-            if sub(x, y, env) is False and sub(y, x, env) is False:
+            # generics of different origins: the library orders them by origin alone (type[set[object]] below
+            # type[Iterable[K0]]) although neither is a subtype of the other; the statement does not say
+            ox, oy = env[x[1]], env[y[1]]
+            if not issubclass(ox, oy) and not issubclass(oy, ox):
                 return S.NONE
             return S.UNSPEC
         s12, s21 = sub(x, y, env), sub(y, x, env)
@@ -198,6 +207,8 @@ def order1(a, b, env):
 
 
 def typed_params(m):
+    if m.get("order"):
+        return [m["pos"][j] for j in m["order"]]
     return m["kw"] + m["pos"][1:] if m["kw"] else m["pos"]
 
 
@@ -264,6 +275,8 @@ def run_case(spec):
             kws = {}
             if kwmode:
                 kws, args = {"t": args[0]}, [0]
+            if spec.get("swap"):
+                args = args[::-1]
             out = prog.call(args, kws)
             got = ("method", out.value.mid) if out.kind == "ok" else ("nomethod",) if out.kind == "rejected" else (out.kind,)
             res.label("exp:" + exp[0], "passed:" + call[0][0])
